@@ -1,0 +1,10 @@
+//go:build !verif
+
+package server
+
+// Empty twins of the rewrite gate and crash points in verif_shrink_on.go
+// (build tag verif). They are inlined away: without the tag the server
+// contains no trace of them.
+
+func (s *Server) verifShrinkGate(kind, a, b string) {}
+func (s *Server) verifShrinkCrash(name string)      {}
